@@ -61,6 +61,11 @@ without touching the tree other checks read). A seed the first version of a chec
 strengthening of that check; both facts are recorded in the last column. The reverse patches of the
 `fix:` commits (the pinned defects) are caught by the corpus entries that run first in every check.
 
+Rounds: 1–3 and 4 are black-box rounds (authors saw only the property text; each miss led to a strengthening, described in
+the history column and in §12); `4w` are the white-box candidates of `design_notes/ADVERSARY.md` (authors read `/verif`);
+round 5 was written after the last hardening and is a held-out measurement: nothing was changed for it except where the
+history column says so.
+
 The column *latest batch run* is written by `tools/batchtest.py` + `tools/merge_results.py` (quick tier, the check run
 exactly as registered, against a scratch worktree with the change applied): `violation with failing input` = caught with a
 concrete replay; `violation, no-failing-input-found` = only a tie/obligation broke; `silent` = missed.
